@@ -3,6 +3,7 @@
 -/
 import Proofs.FileLabels
 import AgeModel.CliIdent
+import Proofs.ToyPrims
 namespace AgeModel
 namespace Props.C10
 open Format
@@ -281,6 +282,88 @@ theorem cli_encrypted_identity_failure_keeps_nothing (P : Prims) (F : Protected)
 
 /-- non-vacuity: a concrete non-canonical work factor ("05") and a canonical one ("18") -/
 example : parseWorkFactor [48, 53] = none ∧ parseWorkFactor [49, 56] = some 18 ∧ parseWorkFactor [43, 53] = none := by decide
+
+/-! ## non-vacuity witnesses (toy primitives of Proofs/ToyPrims) -/
+
+/-- non-vacuity of `scrypt_identity_alone`: a header of two stanzas, an X25519 one followed by a passphrase one -/
+theorem scrypt_identity_alone_nonvacuous :
+    (∃ s ∈ [({ type := tX25519, args := [B64.encRaw (List.replicate 32 0)], body := List.replicate 28 1 } : Stanza),
+            wrapScrypt Prims.toy [112, 119] 10 (List.replicate 16 7) (List.replicate 16 4)], s.type = tScrypt) ∧
+    [({ type := tX25519, args := [B64.encRaw (List.replicate 32 0)], body := List.replicate 28 1 } : Stanza),
+      wrapScrypt Prims.toy [112, 119] 10 (List.replicate 16 7) (List.replicate 16 4)].length ≠ 1 :=
+  ⟨⟨_, List.mem_cons_of_mem _ (List.mem_singleton.mpr rfl), rfl⟩, by decide⟩
+
+/-- non-vacuity of `workfactor_canonical`: the argument `18` -/
+theorem workfactor_canonical_nonvacuous : parseWorkFactor [49, 56] = some 18 := by decide
+
+/-- `kdf_cost_bounded` and `workfactor_guard` have no hypotheses; their bounded quantifier / first alternative is not empty:
+    the identity of passphrase `pw` (maximum 22) opens the lone stanza wrapped for `pw` at work factor 10, deriving one key, at 10 -/
+theorem kdf_cost_bounded_nonvacuous :
+    (Identity.scrypt [112, 119] 22).unwrapLog Prims.toy
+      [wrapScrypt Prims.toy [112, 119] 10 (List.replicate 16 7) (List.replicate 16 4)] = (.key (List.replicate 16 4), [10]) := by rfl
+
+/-- … and the second alternative of `workfactor_guard` is met by the same stanza when the maximum is 9: fatal, nothing derived -/
+example : unwrapScrypt Prims.toy [112, 119] 9
+    (wrapScrypt Prims.toy [112, 119] 10 (List.replicate 16 7) (List.replicate 16 4)) = (.fatal, []) := by rfl
+
+/-- non-vacuity of `scrypt_never_mixed_encrypt`: a passphrase recipient followed by an X25519 recipient -/
+theorem scrypt_never_mixed_encrypt_nonvacuous :
+    Recipient.scrypt [112] 10 ∈ [Recipient.scrypt [112] 10, Recipient.x25519 (List.replicate 32 0)] ∧
+    Recipient.x25519 (List.replicate 32 0) ∈ [Recipient.scrypt [112] 10, Recipient.x25519 (List.replicate 32 0)] ∧
+    ((∃ p, Recipient.x25519 (List.replicate 32 0) = .x25519 p) ∨
+      (∃ w m, Recipient.x25519 (List.replicate 32 0) = .sshEd w m) ∨ (∃ w p, Recipient.x25519 (List.replicate 32 0) = .sshRsa w p)) :=
+  ⟨List.mem_cons_self, List.mem_cons_of_mem _ List.mem_cons_self, Or.inl ⟨_, rfl⟩⟩
+
+/-- … and on a tape long enough for every draw that list is refused for exactly that reason -/
+example : encryptHeader Prims.toy (List.replicate 100 7)
+    [Recipient.scrypt [112] 10, Recipient.x25519 (List.replicate 32 0)] = .error .incompatible := by rfl
+
+/-- non-vacuity of `two_scrypt_need_equal_labels`: on the constant tape 7,7,7,… the two label draws coincide, and Encrypt accepts
+    two different passphrase recipients -/
+theorem two_scrypt_need_equal_labels_nonvacuous :
+    ∃ st, encryptHeader Prims.toy (List.replicate 100 7) [Recipient.scrypt [112] 10, Recipient.scrypt [113] 12] =
+        .ok (List.replicate 16 7, st, List.replicate 20 7) ∧
+      Recipient.scrypt [112] 10 ∈ [Recipient.scrypt [112] 10, Recipient.scrypt [113] 12] ∧
+      Recipient.scrypt [113] 12 ∈ [Recipient.scrypt [112] 10, Recipient.scrypt [113] 12] ∧
+      (∃ pw n, Recipient.scrypt [112] 10 = .scrypt pw n) ∧ (∃ pw n, Recipient.scrypt [113] 12 = .scrypt pw n) :=
+  ⟨_, rfl, List.mem_cons_self, List.mem_cons_of_mem _ List.mem_cons_self, ⟨_, _, rfl⟩, ⟨_, _, rfl⟩⟩
+
+/-- non-vacuity of `cli_passphrase_stanza_alone`: the two-stanza header of `scrypt_identity_alone_nonvacuous` (same hypotheses) -/
+theorem cli_passphrase_stanza_alone_nonvacuous :
+    (∃ s ∈ [({ type := tX25519, args := [B64.encRaw (List.replicate 32 0)], body := List.replicate 28 1 } : Stanza),
+            wrapScrypt Prims.toy [112, 119] 10 (List.replicate 16 7) (List.replicate 16 4)], s.type = tScrypt) ∧
+    [({ type := tX25519, args := [B64.encRaw (List.replicate 32 0)], body := List.replicate 28 1 } : Stanza),
+      wrapScrypt Prims.toy [112, 119] 10 (List.replicate 16 7) (List.replicate 16 4)].length ≠ 1 :=
+  scrypt_identity_alone_nonvacuous
+
+/-- non-vacuity of `cli_wrong_passphrase_fatal`: a passphrase stanza -/
+theorem cli_wrong_passphrase_fatal_nonvacuous :
+    (wrapScrypt Prims.toy [112, 119] 10 (List.replicate 16 7) (List.replicate 16 4)).type = tScrypt := rfl
+
+open CliIdent in
+/-- … and a lone passphrase stanza whose body does not open under the typed passphrase: asked, fatal -/
+example : lazyUnwrap Prims.toy (some [120]) 22
+    [{ type := tScrypt, args := [B64.encRaw (List.replicate 16 7), [49, 48]], body := List.replicate 28 1 }] = (.fatal, true) := by rfl
+
+open CliIdent in
+/-- non-vacuity of `cli_agrees_with_library`: the CLI identity, given the passphrase, opens the lone stanza wrapped for it -/
+theorem cli_agrees_with_library_nonvacuous :
+    (lazyUnwrap Prims.toy (some [112, 119]) 22
+      [wrapScrypt Prims.toy [112, 119] 10 (List.replicate 16 7) (List.replicate 16 4)]).1 = .key (List.replicate 16 4) := by rfl
+
+open CliIdent in
+/-- non-vacuity of `cli_encrypted_identity_asks_once`: a protected file that opens (to one X25519 identity) when a passphrase is typed -/
+theorem cli_encrypted_identity_asks_once_nonvacuous :
+    ({ open_ := fun a => match a with
+        | some _ => (some [Identity.x25519 (List.replicate 32 2)], true)
+        | none => (none, true) } : Protected).open_ (some [112]) = (some [Identity.x25519 (List.replicate 32 2)], true) := rfl
+
+open CliIdent in
+/-- non-vacuity of `cli_encrypted_identity_failure_keeps_nothing`: the same protected file when the terminal is not available -/
+theorem cli_encrypted_identity_failure_keeps_nothing_nonvacuous :
+    ({ open_ := fun a => match a with
+        | some _ => (some [Identity.x25519 (List.replicate 32 2)], true)
+        | none => (none, true) } : Protected).open_ none = (none, true) := rfl
 
 end Props.C10
 end AgeModel
